@@ -69,7 +69,8 @@ def main(tier):
         run.add_mc("FastStorage/" + cfg, res)
     jobs = corpus.all_singles(sd, tier=tier) + corpus.draw(n, sd, dedicated_bias=0.5)
     jobs += corpus.draw(12 if tier == "quick" else 150, sd + 7, families=["diamonds", "branch", "inplace"])
-    for cfg, want in (("WeightBuffer_MC.cfg", "ok"), ("WeightBuffer_Broken.cfg", "invariant")):
+    # WeightBuffer_Deep: 4 slice sizes (16..96) x up to 6 slices x 11 limits = 60 060 instances (MC: 3 x 5 x 8 = 2 904)
+    for cfg, want in (("WeightBuffer_MC.cfg", "ok"), ("WeightBuffer_Broken.cfg", "invariant"), ("WeightBuffer_Deep.cfg", "ok")):
         res = tlc.run("WeightBuffer", cfg, workers=8, timeout=900)
         if res["status"] != want:
             raise MachineryError("WeightBuffer %s: expected %s, got %s\n%s" % (cfg, want, res["status"], res["output"][-1500:]))
